@@ -166,6 +166,27 @@ def run(chk):
                     if ch2 and ("DELETE" in label or "Delete" in label or "Put" in label or "Copy" in label):
                         chk.fail("c04:alias-resolved:%s" % kind, "%s by %s acted on an existing key under a different (resolved) name: %s" % (label, who, ch2[:2]), row)
                 o0 = o1
+        # ---- the object a request names, not another object of the same bucket: a version id in a copy source selects a version
+        # of the SOURCE key (the version stores of two keys hold the same ids: "null")
+        import hashlib as _h
+        alice.req("PUT", "/bk3")
+        for k_, old_ in (("cs/a", b"old-of-a"), ("cs/b", b"old-of-b-longer")):
+            alice.req("PUT", "/bk3/" + k_, body=old_)
+        alice.req("PUT", "/bk3", query={"versioning": ""}, body=b"<VersioningConfiguration><Status>Enabled</Status></VersioningConfiguration>")
+        for k_, new_ in (("cs/a", b"new-of-a"), ("cs/b", b"new-of-b")):
+            alice.req("PUT", "/bk3/" + k_, body=new_)
+        r0 = alice.req("POST", "/bk3/cs/b", query={"uploads": ""}); uid3 = r0.xml().findtext("UploadId") if r0.status == 200 and r0.xml() is not None else ""
+        rp = alice.req("PUT", "/bk3/cs/b", query={"partNumber": "1", "uploadId": uid3}, headers={"x-amz-copy-source": "bk3/cs/a?versionId=null"})
+        et = (rp.xml().findtext("ETag") or "").strip('"') if rp.status == 200 and rp.xml() is not None and rp.xml().tag != "Error" else None
+        rc_ = alice.req("PUT", "/bk3/cs/c", headers={"x-amz-copy-source": "bk3/cs/a?versionId=null"})
+        gc_ = alice.req("GET", "/bk3/cs/c")
+        for what, got in (("UploadPartCopy into cs/b", et), ("CopyObject into cs/c", _h.md5(gc_.body).hexdigest() if rc_.status == 200 and gc_.status == 200 else None)):
+            chk.case(("named-version", what), True); chk.traces += 1
+            row = {"request": what + " from bk3/cs/a?versionId=null", "etag_of_result": got, "old_a": _h.md5(b"old-of-a").hexdigest(), "old_b": _h.md5(b"old-of-b-longer").hexdigest()}
+            rows.append(row)
+            if got is not None and got != _h.md5(b"old-of-a").hexdigest():
+                chk.fail("c04:other-objects-version-read:" + what.split(" ")[0], "%s from bk3/cs/a?versionId=null produced content with MD5 %s: not the null version of cs/a (%s)%s" % (
+                    what, got, row["old_a"], "; it is the null version of cs/b" if got == row["old_b"] else ""), row)
         chk.tie("gateway still running", g.alive(), g.log_tail())
     chk.samples.extend(rows[7:10])
 
